@@ -216,7 +216,7 @@ fn hist_op<T: Pod, L: spl_list_view::PodLength>(h: &mut Hist, op: &[&str]) -> (S
             let should_ok = i < sh.len();
             if should_ok != !failed { err = Some(format!("remove: expected {}", if should_ok { "success" } else { "an error" })); }
             if r.is_none() { err = Some("remove panicked".into()); }
-            if !failed { let x = sh.remove(i); if sz > 0 && s != format!("ok {}", hex(&x)) { err = Some("remove returned a different element".into()); } }
+            if !failed && i < sh.len() { let x = sh.remove(i); if sz > 0 && s != format!("ok {}", hex(&x)) { err = Some("remove returned a different element".into()); } }
         }
         ("set", Some(sh)) => {
             let i: usize = op[1].parse().unwrap();
@@ -235,7 +235,7 @@ fn hist_op<T: Pod, L: spl_list_view::PodLength>(h: &mut Hist, op: &[&str]) -> (S
         le[..wl].copy_from_slice(&after[..wl]);
         if u128::from_le_bytes(le) != sh.len() as u128 { err = Some("length prefix is not the element count (little-endian)".into()); }
         let flat: Vec<u8> = sh.iter().flatten().copied().collect();
-        if after[wl + pad..wl + pad + flat.len()] != flat[..] { err = Some("elements are not stored back to back after the header".into()); }
+        if after.get(wl + pad..wl + pad + flat.len()) != Some(&flat[..]) { err = Some("elements are not stored back to back after the header".into()); }
         if sh.len() > h.cap { err = Some("length exceeds capacity".into()); }
     }
     (format!("{} buf={}", s, hex(&after)), err)
